@@ -116,13 +116,14 @@ def gen_read(r, gene, idx, force_eligible=False):
             "mapq": r.choice([0, 1, 5, 9, 10, 29, 60]), "flag": flag}
 
 
-def fake_sample(gene):
+def fake_sample(gene, eqs=None):
     from aldy.sam import Sample
     s = Sample.__new__(Sample)
     s.gene = gene
     s.phases = {}
     s._indel_sites = {(pos, op): [0, 0] for pos, op in gene.mutations if op[:3] in ["ins", "del"]}
     s._indel_sites_eqs = {}
+    s._indel_phase_eqs = dict(eqs or {})
     s._multi_sites = {m.pos: m.op for _, a in gene.alleles.items() for m in a.func_muts if ">" in m.op and len(m.op) > 3}
     s.phaseable = {pos: i for i, pos in enumerate(sorted({pos for pos, _ in gene.mutations}))}
     return s
@@ -132,8 +133,39 @@ def canon_obs(lst):
     return sorted((Fraction(a), Fraction(b)) for a, b in lst)
 
 
-def real_parse(gene, reads):
-    s = fake_sample(gene)
+def reported_indels(gene, rd):
+    """(start, op) of the insertions / deletions a read reports (same walk as the CIGAR parser)"""
+    out = []
+    start, s_start = rd["pos"], 0
+    for op, size in rd["cigar"]:
+        if op == 2:
+            out.append((start, "del" + gene[start:start + size]))
+            start += size
+        elif op == 1:
+            out.append((start, "ins" + rd["seq"][s_start:s_start + size]))
+            s_start += size
+        elif op == 4:
+            s_start += size
+        elif op in (0, 7, 8):
+            start += size
+            s_start += size
+    return out
+
+
+def gen_eqs(r, gene, reads):
+    """a table 'reported indel -> database indel it spells' that the reads actually hit"""
+    sites = sorted({pos for pos, _ in gene.mutations})
+    dbi = [(p, o) for p, o in gene.mutations if o[:3] in ("ins", "del")] or [(sites[0], "insA")] if sites else []
+    eqs = {}
+    for rd in reads:
+        for m in reported_indels(gene, rd):
+            if dbi and r.random() < 0.4:
+                eqs[m] = r.choice(dbi) if r.random() < 0.8 else (m[0] + r.randint(-3, 3), m[1])
+    return eqs
+
+
+def real_parse(gene, reads, eqs=None):
+    s = fake_sample(gene, eqs)
     norm = collections.defaultdict(list)
     muts = collections.defaultdict(list)
     for rd in reads:
@@ -231,9 +263,11 @@ def tie(ctx):
             lv = locus_view(gene)
             # ---- tie 1: tuples
             elig_reads = [rd for rd in reads if not any(op == 5 for op, _ in rd["cigar"])]
-            table, phases = real_parse(gene, elig_reads)
+            eqs = gen_eqs(r, gene, elig_reads)
+            stats["indel_equivalents"] += len(eqs)
+            table, phases = real_parse(gene, elig_reads, eqs)
             metas.append(("tuples", gd, elig_reads, table, phases))
-            reqs.append({"op": "pileup", "locus": lv, "reads": [wire_read(rd) for rd in elig_reads]})
+            reqs.append({"op": "pileup", "locus": dict(lv, indel_eqs=[[[k[0], k[1]], [v[0], v[1]]] for k, v in eqs.items()]), "reads": [wire_read(rd) for rd in elig_reads]})
             # ---- tie 2: BAM (every other set, cheaper)
             if k % 2 == 0:
                 bam = os.path.join(d, f"s{k}.bam")
@@ -260,7 +294,8 @@ def tie(ctx):
                                            "ref_end": read.reference_end, "same_chrom": (not read.is_unmapped) and read.reference_name == gene.chr,
                                            "hard_clipped": "H" in (read.cigarstring or ""), "empty_seq": not read.query_sequence})
                 metas.append(("bam", gd, bam, smp, wire_reads))
-                reqs.append({"op": "pileup", "locus": lv, "reads": wire_reads, "check_eligibility": True})
+                reqs.append({"op": "pileup", "locus": dict(lv, indel_eqs=[[[k[0], k[1]], [v[0], v[1]]] for k, v in smp._indel_phase_eqs.items()]),
+                             "reads": wire_reads, "check_eligibility": True})
                 # oracle on the real table
                 depth, counts = spec_table(gene, bam)
                 cov = smp.coverage
